@@ -6,6 +6,7 @@
 #include <cocls/async.h>
 #include "queue.h" // outcome helpers
 #include <memory>
+#include <optional>
 
 namespace scn {
 using namespace cocls::verif;
@@ -133,6 +134,10 @@ struct sf_round {
     sf_obs obs[vf::MAX_TEAM][6]; int nobs[vf::MAX_TEAM] = {};
     int kind = 0; uint64_t id = 0;
     std::atomic<int> poll_ready_seen{0};
+    // variant: the shared_future is constructed INSIDE the round by thread 1 while thread 0 resolves the promise as soon as the
+    // construction function has handed it out (resolution racing with the constructor's own bookkeeping)
+    bool construct_in_round = false; int path = 0;
+    std::atomic<int> prom_ready{0};
 };
 enum { SFA_COPY_AWAIT = 0, SFA_WAIT = 1, SFA_DROP = 2, SFA_POLL = 3, SFA_AWAIT = 4, SFA_COPY_DROP = 5 };
 inline const char *sfa_name(int a) { static const char *n[] = {"copy+await", "wait", "drop", "poll", "await", "copy+drop"}; return n[a]; }
@@ -140,8 +145,17 @@ inline const char *sfa_name(int a) { static const char *n[] = {"copy+await", "wa
 inline bool mix_drop_at_end(uint64_t rseed, int tid) { return vf::mix(rseed, 99 + (uint64_t)tid) % 2 == 0; }
 inline void sf_role(sf_round &X, int tid, uint64_t rseed) {
     vf::start_offset(rseed, tid);
-    if (tid == 0) { sf_resolve(X.prom, X.kind, X.id); return; }
+    if (tid == 0) {
+        if (X.construct_in_round) { while (!X.prom_ready.load(std::memory_order_acquire)) vf::cpu_relax(); }
+        sf_resolve(X.prom, X.kind, X.id);
+        return;
+    }
     std::unique_ptr<sfut> &h = X.handle[tid];
+    if (X.construct_in_round && tid == 1) {
+        auto hand_out = [&X](cocls::promise<tracked> p) { X.prom = std::move(p); X.prom_ready.store(1, std::memory_order_release); };
+        if (X.path == 0) h = std::make_unique<sfut>(hand_out);
+        else h = std::make_unique<sfut>([&]() -> cocls::future<tracked> { return cocls::future<tracked>(hand_out); });
+    }
     for (int i = 0; i < X.nact[tid]; i++) {
         if (!h) break;
         sf_obs &ob = X.obs[tid][X.nobs[tid]];
@@ -174,10 +188,13 @@ inline void shared_future_mt(const vf::opts &o, vf::report &R, vf::team &T, uint
         int nthr = 2 + (int)r.below((uint32_t)(T.n - 1));
         if (nthr > T.n) nthr = T.n;
         std::string desc = "make" + std::to_string(path) + " resolve" + std::to_string(X.kind) + " ";
+        X.construct_in_round = r.chance(1, 4);
+        if (X.construct_in_round) { nthr = 2; X.path = path = (int)r.below(2); desc = "constructed-in-round make" + std::to_string(path) + " resolve" + std::to_string(X.kind) + " "; }
         {
-            sfut first = sf_make(path, X.prom);
+            std::optional<sfut> first;
+            if (!X.construct_in_round) first.emplace(sf_make(path, X.prom));
             for (int t = 1; t < nthr; t++) {
-                X.handle[t] = std::make_unique<sfut>(first);
+                if (!X.construct_in_round) X.handle[t] = std::make_unique<sfut>(*first);
                 X.nact[t] = 1 + (int)r.below(4);
                 desc += "| ";
                 for (int i = 0; i < X.nact[t]; i++) { X.actions[t][i] = (int)r.below(6); desc += std::string(sfa_name(X.actions[t][i])) + " "; }
@@ -203,6 +220,7 @@ inline void shared_future_mt(const vf::opts &o, vf::report &R, vf::team &T, uint
         bool nontrivial = nobs > 0;
         if (nontrivial) R.nontrivial_cases++;
         R.sig(desc + " p" + std::to_string(pushed) + "r" + std::to_string(sawready), nontrivial);
+        if (X.construct_in_round) R.cls("rounds_constructing_while_resolving");
         R.cls("awaiters_parked_before_resolution", pushed); R.cls("awaiters_lost_race_to_ready", sawready); R.cls("poll_saw_ready", X.poll_ready_seen.load());
         if (T.stalls_fired_last_round()) R.cls("rounds_with_stall_fired");
         if (R.samples.size() < 3 && nobs > 1) R.sample(witness());
